@@ -141,6 +141,108 @@ func ParseChunks(s string) ([][]byte, bool) {
 	return out, true
 }
 
+// failWriter accepts `left` bytes and then fails
+type failWriter struct {
+	left int
+	got  []byte
+}
+
+var errFailWriter = fmt.Errorf("writer failed")
+
+func (w *failWriter) Write(p []byte) (int, error) {
+	if len(p) <= w.left {
+		w.left -= len(p)
+		w.got = append(w.got, p...)
+		return len(p), nil
+	}
+	n := w.left
+	w.got = append(w.got, p[:n]...)
+	w.left = 0
+	return n, errFailWriter
+}
+
+// netWriteTo: fresh header of the kind, SetLength(n), WriteTo(w)
+func netWriteTo(hdr string, n int, w io.Writer) (err error, known bool) {
+	switch hdr {
+	case "binary2":
+		h := network.NewBinary2BytesHeader()
+		if err = h.SetLength(n); err == nil {
+			_, err = h.WriteTo(w)
+		}
+	case "ascii4":
+		h := network.NewASCII4BytesHeader()
+		h.SetLength(n)
+		_, err = h.WriteTo(w)
+	case "bcd2":
+		h := network.NewBCD2BytesHeader()
+		h.SetLength(n)
+		_, err = h.WriteTo(w)
+	case "vmlh":
+		h := network.NewVMLHeader()
+		if err = h.SetLength(n); err == nil {
+			_, err = h.WriteTo(w)
+		}
+	default:
+		return nil, false
+	}
+	return err, true
+}
+
+// runNSeq: `N <hdr> writeseq <op>,<op>,…` with op = w<int> (write to a buffer) or f<k>:<int> (write to
+// a writer that fails after k bytes): a sequence of header writes in one process, each on a new
+// header object; a write that failed on its writer must not influence the next one.
+func runNSeq(hdr string, ops string) string {
+	var out []string
+	for _, op := range strings.Split(ops, ",") {
+		if len(op) < 2 {
+			return "bad-op"
+		}
+		switch op[0] {
+		case 'w':
+			n, err := strconv.Atoi(op[1:])
+			if err != nil {
+				return "bad-op"
+			}
+			var buf bytes.Buffer
+			werr, known := netWriteTo(hdr, n, &buf)
+			if !known {
+				return "bad-op"
+			}
+			if werr != nil {
+				out = append(out, "err")
+			} else {
+				out = append(out, "ok "+Hex(buf.Bytes()))
+			}
+		case 'f':
+			kn := strings.SplitN(op[1:], ":", 2)
+			if len(kn) != 2 {
+				return "bad-op"
+			}
+			k, err1 := strconv.Atoi(kn[0])
+			n, err2 := strconv.Atoi(kn[1])
+			if err1 != nil || err2 != nil || k < 0 {
+				return "bad-op"
+			}
+			fw := &failWriter{left: k}
+			werr, known := netWriteTo(hdr, n, fw)
+			if !known {
+				return "bad-op"
+			}
+			switch {
+			case werr == nil:
+				out = append(out, "ok "+Hex(fw.got))
+			case strings.Contains(werr.Error(), errFailWriter.Error()):
+				out = append(out, "fail")
+			default:
+				out = append(out, "err")
+			}
+		default:
+			return "bad-op"
+		}
+	}
+	return strings.Join(out, " | ")
+}
+
 func runN(t []string) (res string) {
 	defer func() {
 		if r := recover(); r != nil {
@@ -151,6 +253,8 @@ func runN(t []string) (res string) {
 		return "bad-op"
 	}
 	switch t[2] {
+	case "writeseq":
+		return runNSeq(t[1], t[3])
 	case "write":
 		n, err := strconv.Atoi(t[3])
 		if err != nil {
